@@ -5,7 +5,7 @@ import warnings
 import numpy as np
 from hypothesis import strategies as st
 
-from ..core import EPS32, given_law
+from ..core import EPS32, given_law, plain_law
 from .. import gen
 from ..oracles import vk
 
@@ -226,11 +226,33 @@ def psd_body(ctx, case):
     ctx.require(ev[0] >= -n * 8 * EPS32 * B0, "phase covariance matrix of %d points not positive semi-definite: min eigenvalue %r (B0=%r)" % (n, float(ev[0]), B0))
 
 
+def large_cases(tier):
+    return [{"n": 2**20 + 37, "r0": 0.15, "L0": 25.0}, {"n": 1500 * 700 + 1, "r0": 0.4, "L0": 1e3}]
+
+
+def large_body(ctx, case):
+    turb, sc, _ = T()
+    n, r0, L0 = case["n"], case["r0"], case["L0"]
+    ctx.case(case, nontrivial=True)
+    r = np.linspace(0.0, 3 * L0, n)
+    B0 = float(vk.B(0.0, r0, L0))
+    cov = np.asarray(quiet(turb.phase_covariance, r.copy(), r0, L0), dtype=np.float64)
+    ctx.require(cov.shape == r.shape, "phase_covariance of a %d-element array: shape %s" % (n, cov.shape))
+    ctx.close(cov, vk.B(r.astype(np.float32).astype(np.float64), r0, L0), 16 * EPS32, "phase_covariance on an array of more than 2^20 separations", scale=B0, name="large array B")
+    d = np.asarray(quiet(sc.structure_function_vk, r.copy(), r0, L0), dtype=np.float64)
+    KR = 0.17253 / (2 * vk.B0_COEF)
+    ctx.close(d, KR * vk.D(r, r0, L0), 1e-7, "structure_function_vk on an array of more than 2^20 separations", scale=2 * B0, name="large array D")
+    m = np.resize(r, 1100 * 1000 + 1100 * 7).reshape(1100, 1007)
+    c2 = np.asarray(quiet(turb.phase_covariance, m.copy(), r0, L0), dtype=np.float64)
+    ctx.close(c2, vk.B(m.astype(np.float32).astype(np.float64), r0, L0), 16 * EPS32, "phase_covariance on a 1100 x 1007 matrix of separations", scale=B0, name="large matrix B")
+
+
 def self_test():
     vk.self_test()
 
 
 LAWS = [
+    plain_law("large_arrays", large_cases, large_body, shards={"quick": 2, "thorough": 2}),
     given_law("closed_forms", sep_cases(), sep_body, {"quick": 1500, "thorough": 20000}, shards={"quick": 3, "thorough": 16}),
     given_law("hankel", hankel_cases(), hankel_body, {"quick": 60, "thorough": 750}, shards={"quick": 3, "thorough": 16}),
     given_law("psd_matrix", psd_cases(), psd_body, {"quick": 300, "thorough": 5000}, shards={"quick": 3, "thorough": 16}),
